@@ -91,8 +91,28 @@ func c02Context() map[string]stick.Value {
 		"things": []gen.Thing{th}, "nested": map[string]stick.Value{"in": map[string]stick.Value{"k": []int{1}}},
 		"ks": map[gen.KeyStr]int{"a": 1}, "ki": map[gen.KeyInt]string{1: "one"}, "dn": gen.KeyInt(2), "ds": gen.KeyStr("a"), "db": gen.NamedBool(true), "nsl": gen.NamedSlice{5, 6},
 		"ov": gen.OuterVal{Inner: gen.Inner{Name: "in", N: 1}, Extra: 2}, "op": gen.OuterPtr{Inner: &gen.Inner{Name: "ep", N: 5}, Extra: 6}, "onil": gen.OuterPtr{Extra: 7}, "oi": gen.OuterIface{Any: []int{1}},
+		"cyc": cyclicMap(), "cycs": cyclicSlice(), "cycp": cyclicStruct(),
 		"str": gen.ValStringer{S: "st"}, "safe": stick.NewSafeValue("<b>", "html"), "tm": time.Date(2021, 3, 4, 5, 6, 7, 0, time.UTC), "nilm": map[string]stick.Value(nil),
 	}
+}
+
+// Values that contain themselves: a map, a slice, and a struct reached through its own pointer field.
+func cyclicMap() map[string]stick.Value {
+	m := map[string]stick.Value{"k": "v"}
+	m["self"] = m
+	return m
+}
+
+func cyclicSlice() []stick.Value {
+	s := []stick.Value{"e", nil}
+	s[1] = s
+	return s
+}
+
+func cyclicStruct() *gen.OuterIface {
+	o := &gen.OuterIface{Any: "a"}
+	o.Next = o
+	return o
 }
 
 // detContext is c02Context without multi-entry maps (nothing may depend on Go's
@@ -100,6 +120,7 @@ func c02Context() map[string]stick.Value {
 func detContext() map[string]stick.Value {
 	c := c02Context()
 	c["m"] = map[string]stick.Value{"k": "v"}
+	delete(c, "cyc") // two entries: iteration order
 	return c
 }
 
